@@ -307,10 +307,16 @@ func (m *Manager) GetStats() (*QoSStats, error) {
 	var key uint32 = 0
 	var stats QoSStats
 
-	// Note: This is a per-CPU map, need to aggregate
-	// For simplicity, just get first CPU's stats
-	if err := m.qosStatsMap.Lookup(&key, &stats); err != nil {
+	// The stats map is per-CPU: read one value per possible CPU and aggregate
+	var perCPU []QoSStats
+	if err := m.qosStatsMap.Lookup(&key, &perCPU); err != nil {
 		return nil, err
+	}
+	for _, c := range perCPU {
+		stats.PacketsPassed += c.PacketsPassed
+		stats.PacketsDropped += c.PacketsDropped
+		stats.BytesPassed += c.BytesPassed
+		stats.BytesDropped += c.BytesDropped
 	}
 
 	return &stats, nil
